@@ -215,6 +215,21 @@ def chunk_geo(p, n):
         check_geo(p, lat, lon, 0 if auto else zone, ell, prj)
 
 
+def trig_zero_northing(rng, ell, prj, h):
+    """a northing on one of the parallels where a term of the eight-term series vanishes (xi = m*pi/(4r), r = 1..8): the places where
+    a summation that stops on a small term, or skips one, goes wrong; on the parallel itself or a hair off it"""
+    k0, fn = float(prj.cmscale), float(prj.falsenorth)
+    A_ = C.rect_radius(ell)
+    for _ in range(20):
+        r = rng.randint(1, 8)
+        m = rng.randint(1, 2 * r - 1)
+        xi = m * math.pi / (4 * r)
+        if xi < 1.44:      # below ~83 deg
+            break
+    y = k0 * A_ * xi + rng.choice([0.0, 0.0, 1e-4, -1e-4, 1e-3, -1e-3, 0.02, -0.02])
+    return (fn - y) if h == 'south' else y
+
+
 def chunk_lattice(p, n):
     """grid coordinates drawn directly on a lattice (whole metres down to 0.1 mm), all zones, both hemispheres"""
     rng = p.rng
@@ -250,6 +265,11 @@ def chunk_lattice(p, n):
             nth = rng.choice([hi if h == 'south' else lo, (hi - 1e-4) if h == 'south' else (lo + 1e-4), lo, hi])
         else:
             nth = rng.uniform(lo, hi)
+        if rng.random() < 0.15:
+            nth = trig_zero_northing(rng, ell, prj, h)
+            dec = 4
+            if rng.random() < 0.6:
+                e = fe + rng.choice([0.0, 0.0, 1e-4, -1e-3, 0.002])      # on (or a hair off) the central meridian
         nth = min(max(round(nth, dec), lo), hi)
         if not 0 <= nth <= 1e7:
             continue
@@ -276,6 +296,10 @@ def chunk_standalone(p, n):
             _, _, e, nth, _, _ = C.geo2grid(lat, lon, z, K.grs80, K.utm)
             if lat == 0:
                 nth = 10000000.0
+        if rng.random() < 0.2:
+            nth = round(trig_zero_northing(rng, K.grs80, K.utm, 'south'), 4)
+            if rng.random() < 0.4:
+                e = 500000.0
         if not (EAST_MIN <= e <= EAST_MAX and 0 <= nth <= 1e7):
             continue
         check_grid(p, z, e, nth, 'south', K.grs80, K.utm, 'standalone')
